@@ -62,8 +62,14 @@ func RunChild(self string, dir string, s *Script) ([]StepResult, *Trace, error) 
 		return nil, nil, err
 	}
 	logf := filepath.Join(dir, "strace.log")
-	cmd := exec.Command("strace", "-f", "-y", "-s", "1000000", "-x", "-o", logf, "-e", straceSyscalls,
-		self, "--child", sfile)
+	args := []string{"-f", "-y", "-s", "1000000", "-x", "-o", logf, "-e", straceSyscalls}
+	for _, sc := range []string{"pwrite64", "fsync", "ftruncate"} {
+		if w, ok := s.Inject[sc]; ok && w != "" {
+			args = append(args, "-e", fmt.Sprintf("inject=%s:error=EIO:when=%s", sc, w))
+		}
+	}
+	args = append(args, self, "--child", sfile)
+	cmd := exec.Command("strace", args...)
 	cmd.Stdin, cmd.Stdout, cmd.Stderr = nil, nil, nil // /dev/null: never a regular file (RLIMIT_FSIZE)
 	if err := cmd.Run(); err != nil {
 		return nil, nil, fmt.Errorf("strace child: %v", err)
